@@ -595,3 +595,10 @@ mod tests {
         assert!(!Comparison::EndsWith("abc".into()).compare(&1.into()));
     }
 }
+
+// Verification hook (inactive unless built with `--cfg agdb_verif` under Kani).
+#[cfg(all(agdb_verif, kani))]
+#[allow(unused, dead_code, clippy::all)]
+pub(crate) mod verif_h {
+    include!(concat!(env!("AGDB_VERIF_HARNESS"), "/query_condition_h.rs"));
+}
